@@ -130,6 +130,110 @@ def check_inline_memos(run, rule, prog, eff, classes, describe=True):
     return n
 
 
+def _param_fields(prog, eff, ci, init, binding, depth=0):
+    """{constructor parameter of the outermost __init__ -> fields of self it is stored in (directly, through a property setter, or by a
+    base-class constructor it is passed on to)}.  `binding`: local name in `init` -> outermost parameter."""
+    out = {}
+    if init is None or depth > 4:
+        return out
+
+    def params_in(e):
+        return {binding[n.id] for n in ast.walk(e) if isinstance(n, ast.Name) and n.id in binding}
+    for st in ast.walk(init):
+        if isinstance(st, ast.Assign):
+            for t in st.targets:
+                ch = self_chain(t)
+                if ch and '.' not in ch:
+                    ps = params_in(st.value)
+                    if not ps:
+                        continue
+                    sc, setter = prog.find_setter(ci, ch)
+                    fields = {ch}
+                    if setter is not None:
+                        fields = {f.split('.')[0] for f in eff.closure(ci, setter).writes} or {ch}
+                    for p in ps:
+                        out.setdefault(p, set()).update(fields)
+        elif isinstance(st, ast.Call) and norm(st.func).endswith('.__init__'):
+            owner = None
+            args = list(st.args)
+            if norm(st.func) == 'super().__init__':
+                mro = prog.mro(init.owner) if hasattr(init, 'owner') else []
+                owner = next((c for c in mro[1:] if '__init__' in c.methods), None)
+            else:
+                cname = norm(st.func)[:-9]
+                owner = next((c for c in prog.mro(ci) if c.name == cname and '__init__' in c.methods), None)
+                args = args[1:]
+            if owner is None:
+                continue
+            binit = owner.methods['__init__']
+            bparams = [a.arg for a in binit.args.args[1:]]
+            b2 = {}
+            for bp, a in zip(bparams, args):
+                ps = params_in(a)
+                if len(ps) == 1:
+                    b2[bp] = next(iter(ps))
+            for k in st.keywords:
+                if k.arg in bparams:
+                    ps = params_in(k.value)
+                    if len(ps) == 1:
+                        b2[k.arg] = next(iter(ps))
+            for p, fs in _param_fields(prog, eff, ci, binit, b2, depth + 1).items():
+                out.setdefault(p, set()).update(fs)
+    return out
+
+
+def check_ctor_derived(run, rule, prog, eff, classes, describe=False):
+    """A field computed once in the constructor from constructor arguments (and written nowhere else) must not depend on an argument that
+    a public setter can change afterwards: the derived value would keep describing the object as it was constructed."""
+    if describe:
+        run.describe(rule, 'a field derived in the constructor from a settable parameter is recomputed by that setter')
+    n = 0
+    for ci in classes:
+        init = ci.methods.get('__init__')
+        if init is None:
+            continue
+        params = [a.arg for a in init.args.args[1:]]
+        binding = {p: p for p in params}
+        derived = {}
+        for st in ast.walk(init):
+            if isinstance(st, ast.Assign) and len(st.targets) == 1:
+                ch = self_chain(st.targets[0])
+                if ch and '.' not in ch and not isinstance(st.value, ast.Name):
+                    ps = {x.id for x in ast.walk(st.value) if isinstance(x, ast.Name) and x.id in binding}
+                    # a cast of one argument is plain storage, not derivation
+                    plain = isinstance(st.value, ast.Call) and len(st.value.args) == 1 and isinstance(st.value.args[0], ast.Name)
+                    if ps and not plain:
+                        derived[ch] = (ps, st)
+        if not derived:
+            continue
+        others = [(nm, f, c) for c in prog.mro(ci) for nm, f in list(c.methods.items()) + list(c.setters.items()) + list(c.getters.items())
+                  if nm not in ('__init__', '__cinit__')]
+        pf = _param_fields(prog, eff, ci, init, binding)
+        for D, (ps, st) in sorted(derived.items()):
+            if prog.find_setter(ci, D)[1] is not None:
+                continue
+            written = any(D in {w.split('.')[0] for w in eff.summary(f).writes} for nm, f, c in others)
+            read = any(D in {r.split('.')[0] for r in eff.summary(f).reads} for nm, f, c in others)
+            if written or not read:
+                continue
+            for kind, name, fn, c in eff.public_mutators(ci):
+                clo = eff.closure(ci, fn)
+                wr = {w.split('.')[0] for w in clo.writes}
+                hit = sorted(p for p in ps if pf.get(p, set()) & wr)
+                if not hit:
+                    continue
+                n += 1
+                run.subject(rule)
+                if D in wr:
+                    run.ok(rule, '%s.%s recomputes %s' % (ci.name, name, D), 'constructor-derived from %s' % sorted(ps), sample=False)
+                else:
+                    run.fail(rule, '%s|%s|%s:%s|ctor-derived:%s' % (ci.mod.name, ci.name, kind, name, D), c.mod.relpath, fn.lineno,
+                             "%s.%s changes %s, but '%s' was computed once in %s.__init__ from the constructor argument(s) %s and is never "
+                             "recomputed: what reads it keeps describing the object as constructed"
+                             % (ci.name, name, sorted(f for p in hit for f in pf[p] & wr), D, ci.name, hit))
+    return n
+
+
 _EXAMPLE = '''
 class Instrument:
     def __init__(self, angle):
@@ -163,6 +267,32 @@ class Instrument:
 
     def set_angle_and_forget(self, value):
         self._angle = value
+
+
+class Base:
+    def __init__(self, lo, hi):
+        self.lo = lo
+        self._hi = hi
+
+    @property
+    def lo(self):
+        return self._lo
+
+    @lo.setter
+    def lo(self, value):
+        self._lo = value
+
+    def evaluate(self, x):
+        return 0
+
+
+class Flat(Base):
+    def __init__(self, lo, hi):
+        self._density = 1.0 / (hi - lo)
+        super().__init__(lo, hi)
+
+    def evaluate(self, x):
+        return self._density
 '''
 
 
@@ -203,5 +333,9 @@ def selfcheck():
         kinds = sorted(k.rsplit('|', 1)[-1] + ':' + k.split('|')[2] for k in p.fails)
         if kinds != ['read-before-reset:setter:angle', 'stale:method:set_angle_and_forget'] or len(p.oks) != 1:
             raise AnalysisError('inline-memo rule self-check failed: %s / %s' % (kinds, p.oks))
+        q = _Probe()
+        check_ctor_derived(q, 'X', prog, eff, [prog.cls('ex.inst.Flat'), prog.cls('ex.inst.Base'), prog.cls('ex.inst.Instrument')])
+        if [k.split('|')[2] + '|' + k.rsplit('|', 1)[-1] for k in q.fails] != ['setter:lo|ctor-derived:_density']:
+            raise AnalysisError('constructor-derived rule self-check failed: %s' % q.fails)
     finally:
         shutil.rmtree(d, ignore_errors=True)
